@@ -229,6 +229,15 @@ class Expander:
                 kids += self.expand(k, inner_vp)
             if clip:
                 inner = N('g', dict(pres_of(c), transform=mat_text(new_ts)), kids)
+                if 'filter' in pres:
+                    # SPEC nesting: group(use transform + style) > viewport clip > content.  A filter does not commute with the
+                    # clip; usvg nests the other way round (known class use-symbol-filter-inside-viewport-clip)
+                    a = dict(uid, **pres)
+                    if T:
+                        a['transform'] = T
+                    return [N('g', a, [N('g', {'clip-path': 'url(#%s)' % self.new_clip(x, y, w, h)}, [inner])])]
+                # clip-path / mask / opacity commute with the viewport clip (C10_use_symbol_as_groups: same set of effects in the
+                # same coordinate systems): written in usvg's nesting order so that the trees can be compared node by node
                 g2 = N('g', pres, [inner])
                 a = dict(uid)
                 if T:
@@ -1620,6 +1629,14 @@ def known_scenarios(rng):
          '<use xlink:href="#s" transform="translate(50 0)" clip-path="url(#cp)"/></svg>' % (NS, defs))
     b = '<svg %s width="100" height="100">%s<g transform="translate(50 0)" clip-path="url(#cp)"><rect width="40" height="40"/></g></svg>' % (NS, defs)
     out.append((None, a, b, 'regression 214a8de: witness C10-use-symbol-clip-path-transform vs its expansion'))
+    wd = ('<filter id="fl30" filterUnits="userSpaceOnUse" x="0" y="0" width="200" height="200"><feOffset dx="30"/></filter>'
+          '<clipPath id="vp"><rect width="40" height="40"/></clipPath>')
+    a = ('<svg %s width="200" height="200">%s<symbol id="s"><rect width="100" height="100"/></symbol>'
+         '<use xlink:href="#s" width="40" height="40" filter="url(#fl30)"/></svg>' % (NS, wd))
+    b = '<svg %s width="200" height="200">%s<g filter="url(#fl30)"><g clip-path="url(#vp)"><rect width="100" height="100"/></g></g></svg>' % (NS, wd)
+    out.append(('use-symbol-filter-inside-viewport-clip', a, b, 'witness corpus/witness/C10-use-symbol-filter-viewport-clip.svg vs the SPEC nesting'))
+    b = '<svg %s width="200" height="200">%s<g clip-path="url(#vp)"><g filter="url(#fl30)"><rect width="100" height="100"/></g></g></svg>' % (NS, wd)
+    out.append((None, a, b, 'the witness equals the expansion with the viewport clip outside the filter group'))
     for style in ['clip-path="url(#cp)"', 'mask="url(#mk)"', 'filter="url(#fl)"', 'opacity="0.5"',
                   'clip-path="url(#cp)" mask="url(#mk)" opacity="0.5"']:
         for vclip in (False, True):
@@ -1630,11 +1647,20 @@ def known_scenarios(rng):
             sym = '<symbol id="s"%s><rect width="40" height="40" fill="blue"/></symbol>' % ('' if vclip else ' overflow="visible"')
             a = ('<svg %s width="200" height="200">%s%s<use xlink:href="#s" x="%s" y="%s" width="%s" height="%s" transform="%s" %s/></svg>'
                  % (NS, defs, sym, fnum(x), fnum(y), fnum(w), fnum(h), tf, style))
-            if vclip and 'filter' in style:
-                # candidate defect use-symbol-filter-inside-viewport-clip: the viewport clip group is OUTSIDE the use's filter group
-                continue
             inner = '<g transform="translate(%s %s)"><rect width="40" height="40" fill="blue"/></g>' % (fnum(x), fnum(y))
             vdef = '<clipPath id="vp"><rect x="%s" y="%s" width="%s" height="%s"/></clipPath>' % (fnum(x), fnum(y), fnum(w), fnum(h))
+            if vclip and 'filter' in style:
+                # known class use-symbol-filter-inside-viewport-clip, judged narrowly: the construct must DIFFER from the SPEC nesting
+                # (style group outside, viewport clip inside) only by the nesting order, i.e. it must EQUAL the same expansion
+                # with the two groups swapped (must-pass); anything else is a violation
+                b_impl = ('<svg %s width="200" height="200">%s%s<g transform="%s" clip-path="url(#vp)"><g %s>%s</g></g></svg>'
+                          % (NS, defs, vdef, tf, style, inner))
+                out.append((None, a, b_impl, 'use -> clipped symbol with a filter on the use: equals the expansion with the viewport clip '
+                            'OUTSIDE the filter group (the only deviation the known class covers)'))
+                b = ('<svg %s width="200" height="200">%s%s<g transform="%s" %s><g clip-path="url(#vp)">%s</g></g></svg>'
+                     % (NS, defs, vdef, tf, style, inner))
+                out.append(('use-symbol-filter-inside-viewport-clip', a, b, 'use -> clipped symbol with transform and %s vs the SPEC nesting' % style))
+                continue
             if vclip:
                 # clip-path / mask / opacity commute with the viewport clip: written in usvg's nesting order (clip outermost)
                 b = ('<svg %s width="200" height="200">%s%s<g transform="%s" clip-path="url(#vp)"><g %s>%s</g></g></svg>'
@@ -1876,7 +1902,10 @@ def run(ctx):
         "the expansions themselves (tools/props/c10.py Expander, rect_path, ellipse_path, path-data and transform rewriting) are "
         "written from the SVG specification, independently of the Coq model",
     ]
-    ctx.assumptions = ["trees are compared after dissolving pure-transform groups into accumulated transforms; ids of groups and "
+    ctx.assumptions = ["known class use-symbol-filter-inside-viewport-clip (filter on a use of a clipped symbol is applied before the "
+                       "viewport clip): only the dedicated filter x viewport-clip pairs are judged through known_or_violation, and each "
+                       "must equal the expansion with the two groups swapped",
+                       "trees are compared after dissolving pure-transform groups into accumulated transforms; ids of groups and "
                        "definitions are not compared (ids of copies are dropped by construction)",
                        "no known class left: nested-svg-group-attrs-twice (fb5447a) and use-symbol-percent-size (72e1d38) were fixed; "
                        "their witnesses are must-pass regression pairs"]
